@@ -106,6 +106,7 @@ class CFG:
         self._loop_stack: list[tuple[Node, list[Node]]] = []  # (continue target, break sources)
         self._try_stack: list[list[Node]] = []  # handler entry nodes per enclosing try
         self._finally_stack: list[Node] = []
+        self._block_stack: list[list[Node]] = []
         ends = self._body(func.body, [self.entry])
         for n in ends:
             self._edge(n, self.exit, "fall")
@@ -196,6 +197,20 @@ class CFG:
             raise AnalysisError("match statements are not supported by the CFG builder")
         if isinstance(st, ast.Expr) and isinstance(st.value, ast.Constant):
             return preds  # docstring / bare constant: no effect, not a node
+        if st.__class__.__name__ == "InlineBlock":  # body of an inlined helper (sa.inline): LeaveBlock jumps to its end
+            leaves: list[Node] = []
+            self._block_stack.append(leaves)
+            ends = self._body(st.body, preds)
+            self._block_stack.pop()
+            return ends + leaves
+        if st.__class__.__name__ == "LeaveBlock":
+            if not self._block_stack:
+                raise AnalysisError("LeaveBlock outside an inlined helper")
+            n = self._new("branch", None)
+            n.label = "leave"
+            self._link(preds, n)
+            self._block_stack[-1].append(n)
+            return []
         n = self._new("stmt", st)
         self._link(preds, n)
         if isinstance(st, ast.Return):
@@ -559,16 +574,28 @@ class CFG:
         return out
 
     # branch conditions under which a node executes (conjunction along *all* paths = dominating branch markers)
-    def dominating_conditions(self, n: Node) -> list[tuple[ast.AST, bool]]:
-        """[(test expr, truth)] for every If/While/For branch marker that dominates n."""
+    def dominating_conditions(self, n: Node, derive: bool = False) -> list[tuple[ast.AST, bool]]:
+        """[(test expr, truth)] for every If/While/For branch marker that dominates n; with derive also what follows
+        from each (see _facts) - for rules that ask "is X known to hold here", not for rules that compare the list."""
         out = []
         dom = self.dominators().get(n.id, set())
         for m in self.nodes:
             if m.kind == "branch" and m.label in ("true", "false") and m.id in dom and m.ast is not None:
                 if isinstance(m.ast, (ast.For, ast.AsyncFor)):
                     continue
-                out.append((m.ast, m.label == "true"))
+                out.extend(_facts(m.ast, m.label == "true") if derive else [(m.ast, m.label == "true")])
         return out
+
+
+def _facts(test: ast.AST, truth: bool):
+    """The test itself plus what follows from it: `not X` == v gives X == not v; a true conjunction makes every conjunct
+    true; a false disjunction makes every disjunct false."""
+    yield test, truth
+    if isinstance(test, ast.UnaryOp) and isinstance(test.op, ast.Not):
+        yield from _facts(test.operand, not truth)
+    elif isinstance(test, ast.BoolOp) and ((isinstance(test.op, ast.And) and truth) or (isinstance(test.op, ast.Or) and not truth)):
+        for v in test.values:
+            yield from _facts(v, truth)
 
 
 def cfg_of(func_node) -> CFG:
